@@ -274,7 +274,21 @@ func genDates(t *rapid.T) dateTriple {
 	b := genDV(t, "b", &a.C)
 	c := genDV(t, "c", &b.C)
 	tr := dateTriple{V: [3]dv{a, b, c}}
-	switch rapid.IntRange(0, 5).Draw(t, "process.zone") {
+	switch rapid.IntRange(0, 7).Draw(t, "process.zone") {
+	case 6, 7:
+		// ONE instant (or instants a whole number of days apart, give or take an hour) seen from three locations - among them
+		// the ends of the earth, UTC+14 and UTC-12, whose clocks are 26 hours apart: the calendar dates differ although the
+		// instants coincide, and coincide although the instants are more than a day apart
+		base := time.Unix(rapid.Int64Range(-2000000000, 4000000000).Draw(t, "instant"), 0)
+		for i := range tr.V {
+			loc := rapid.SampledFrom([]string{"Etc/GMT-14", "Etc/GMT+12", "Pacific/Kiritimati", "Pacific/Niue", "UTC", "Asia/Tokyo", "America/New_York", "Europe/Berlin", "Australia/Sydney"}).Draw(t, "instant.loc")
+			at := base.Add(time.Duration(rapid.SampledFrom([]int{0, 0, 24, -24, 25, -25, 23, 26, 48}).Draw(t, "instant.hours")) * time.Hour).Add(time.Duration(rapid.SampledFrom([]int{0, 0, 15, -15, 45}).Draw(t, "instant.minutes")) * time.Minute)
+			w := at.In(api.LoadLocation(loc))
+			tr.V[i] = dv{C: spec.Civil{Y: w.Year(), M: int(w.Month()), D: w.Day()}, Loc: loc, Clock: [3]int{w.Hour(), w.Minute(), w.Second()}}
+		}
+		if rapid.Bool().Draw(t, "instant.pz") {
+			tr.PZ = gen.ZoneName(t, "pz")
+		}
 	case 0:
 		tr.PZ = gen.ZoneName(t, "pz")
 	case 1: // a zone that skipped a whole day, and that day among the values
@@ -299,6 +313,25 @@ func sweepDates(yield func(dateTriple) bool) {
 		return yield(dateTriple{V: [3]dv{{C: a}, {C: b}, {C: c}}})
 	}
 	civ := func(t time.Time) spec.Civil { return spec.Civil{Y: t.Year(), M: int(t.Month()), D: t.Day()} }
+	// the day the clocks go back (25 hours long): its first and its last hour are more than a day apart, and still the same date
+	for _, fb := range []struct {
+		zone    string
+		y, m, d int
+	}{{"America/New_York", 2024, 11, 3}, {"Europe/Berlin", 2022, 10, 30}, {"Australia/Sydney", 2023, 4, 2}, {"America/Santiago", 2023, 4, 2}} {
+		idx++
+		if ev.Mine(idx) {
+			day := spec.Civil{Y: fb.y, M: fb.m, D: fb.d}
+			prev := time.Date(fb.y, time.Month(fb.m), fb.d-1, 12, 0, 0, 0, time.UTC)
+			tr := dateTriple{PZ: fb.zone, V: [3]dv{{C: day, Loc: fb.zone, Clock: [3]int{0, 15, 0}}, {C: day, Loc: fb.zone, Clock: [3]int{23, 45, 0}}, {C: civ(prev), Loc: fb.zone, Clock: [3]int{23, 50, 0}}}}
+			if !yield(tr) {
+				return
+			}
+			tr.PZ = ""
+			if !yield(tr) {
+				return
+			}
+		}
+	}
 	// the days around a skipped day, in the zone that skipped it: local values and values carried in UTC
 	for _, s := range skippedDays {
 		day := time.Date(s.day.Y, time.Month(s.day.M), s.day.D, 12, 0, 0, 0, time.UTC)
